@@ -106,4 +106,63 @@ theorem add_sub_int_dec_eq (prof : Profile) (sub : Bool) (d : Dec) (i : Int) :
     · unfold Gen.K.int_sub_decimal
       simp only [h0, decide_false, Bool.false_eq_true, if_false, if_true, mul_pow_ten_eq, coeff_or_panic_eq]
 
+/-! Integer forms of `checked_add` / `checked_sub` (macro `impl_checked_add_sub_decimal_and_int` instantiated with `i64`). -/
+
+theorem checked_int_core (prof : Profile) (n : Nat) (i : Int) (f : Int → Int) (g : Int → Dec) :
+    (do let t3 ← (if decide (n = 0) = true then (do pure (checkedI128 (f i)))
+          else (do
+            let t1 ← Gen.K.checked_mul_pow_ten prof i n
+            let some t2 := t1 | pure none
+            pure (checkedI128 (f t2))) : Outcome (Option Int))
+        let some t4 := t3 | pure none
+        pure (some (g t4))) =
+      .ok (if n = 0 then (checkedI128 (f i)).map g else (checkedMulPowTen i n).bind fun s => (checkedI128 (f s)).map g) := by
+  by_cases h0 : n = 0
+  · simp only [h0, decide_true, if_true, pure_eq', bind_ok']
+    cases checkedI128 (f i) <;> rfl
+  · simp only [h0, decide_false, Bool.false_eq_true, if_false, checked_mul_pow_ten_eq, bind_ok']
+    cases checkedMulPowTen i n with
+    | none => rfl
+    | some s => cases h : checkedI128 (f s) <;> simp [h, pure_eq', bind_ok']
+
+theorem checkedAddSubInt_eq (sub intLeft : Bool) (d : Dec) (i : Int) :
+    checkedAddSubInt sub intLeft d i =
+      (let op (a b : Int) : Int := if sub then a - b else a + b
+       if d.nfrac = 0 then (checkedI128 (if intLeft then op i d.coeff else op d.coeff i)).map (fun c => (⟨c, d.nfrac⟩ : Dec))
+       else (checkedMulPowTen i d.nfrac).bind fun s =>
+         (checkedI128 (if intLeft then op s d.coeff else op d.coeff s)).map (fun c => (⟨c, d.nfrac⟩ : Dec))) := by
+  unfold checkedAddSubInt
+  by_cases h0 : d.nfrac = 0
+  · simp only [h0, if_true]
+    cases checkedI128 (if intLeft then (if sub then i - d.coeff else i + d.coeff) else (if sub then d.coeff - i else d.coeff + i)) <;> rfl
+  · simp only [h0, if_false]
+    cases checkedMulPowTen i d.nfrac with
+    | none => rfl
+    | some s =>
+      show (checkedI128 (if intLeft then (if sub then s - d.coeff else s + d.coeff) else (if sub then d.coeff - s else d.coeff + s)) >>=
+          fun c => pure (⟨c, d.nfrac⟩ : Dec)) = _
+      show _ = Option.map (fun c => (⟨c, d.nfrac⟩ : Dec))
+        (checkedI128 (if intLeft then (if sub then s - d.coeff else s + d.coeff) else (if sub then d.coeff - s else d.coeff + s)))
+      cases checkedI128 (if intLeft then (if sub then s - d.coeff else s + d.coeff) else (if sub then d.coeff - s else d.coeff + s)) <;> rfl
+
+theorem decimal_checked_add_int_eq (prof : Profile) (d : Dec) (i : Int) :
+    Gen.K.decimal_checked_add_int prof d i = .ok (checkedAddSubInt false false d i) := by
+  rw [checkedAddSubInt_eq]
+  exact checked_int_core prof d.nfrac i (fun s => d.coeff + s) (fun c => ⟨c, d.nfrac⟩)
+
+theorem decimal_checked_sub_int_eq (prof : Profile) (d : Dec) (i : Int) :
+    Gen.K.decimal_checked_sub_int prof d i = .ok (checkedAddSubInt true false d i) := by
+  rw [checkedAddSubInt_eq]
+  exact checked_int_core prof d.nfrac i (fun s => d.coeff - s) (fun c => ⟨c, d.nfrac⟩)
+
+theorem int_checked_add_decimal_eq (prof : Profile) (i : Int) (d : Dec) :
+    Gen.K.int_checked_add_decimal prof i d = .ok (checkedAddSubInt false true d i) := by
+  rw [checkedAddSubInt_eq]
+  exact checked_int_core prof d.nfrac i (fun s => s + d.coeff) (fun c => ⟨c, d.nfrac⟩)
+
+theorem int_checked_sub_decimal_eq (prof : Profile) (i : Int) (d : Dec) :
+    Gen.K.int_checked_sub_decimal prof i d = .ok (checkedAddSubInt true true d i) := by
+  rw [checkedAddSubInt_eq]
+  exact checked_int_core prof d.nfrac i (fun s => s - d.coeff) (fun c => ⟨c, d.nfrac⟩)
+
 end Fpdec.Kernels
